@@ -190,7 +190,7 @@ class C08(Check):
     def strategy(self, tier, exclude):
         cfg = gen.Cfg(fragment="c02", allow_quantifiers=False, allow_subquery=False, allow_flatten=False,
                       allow_derived_selection=False, allow_empty_domain=False, min_dom=1, allow_noise=False,
-                      allow_predicates=False, unique_domains=True, allow_shared_nodes=False)
+                      allow_predicates=True, unique_domains=True, allow_shared_nodes=False)
         cfg.max_vars = 3
         ex = set(exclude)
 
